@@ -13,12 +13,16 @@ Conventions
   instantiates it with the generated range tables (Garnish/Gen/CharRanges.lean). `char::is_ascii_whitespace`
   has a fixed documented definition and is hard-coded (`isAsciiWhitespace`).
 
+This file follows the lexer WITH the C13 repair patches /verif/.work/lexfix-1..5.diff applied
+(1 first error is kept: `internal_next` checks `result` before every character; 2 a blank line after trailing
+spaces/tabs is one Subexpression token, the whitespace split of the Subexpression arm is gone; 3 an empty byte list
+does not swallow the next character; 4 line/column are counted in one place, the tail of `process_char`;
+5 a `'\0'` is the end-of-input sentinel only when `at_end`). Line numbers below are those of the unpatched file.
+
 Potential panic sites of the Rust code and how they appear here
 * lexer.rs:473 `self.text_column - 1` (Float arm): `Outcome.panic` if `textColumn = 0` (overflow checks are on in
   debug builds, e.g. in the harness).
-* lexer.rs:669 / 678 `&self.current_characters[..len - 2]`, `[(len - 2)..]` (Subexpression arm): byte slices, panic
-  if `len - 2` is not a char boundary: `splitAtByte` returns `none` → `Outcome.panic`. `len - 2` itself is guarded by
-  `len > 2`.
+* (the byte slices of the Subexpression arm, lexer.rs:669 / 678, are removed by patch 2)
 * lexer.rs:309 `unreachable!()` in `start_token`: `current_operator()` is evaluated twice on the same state, the
   second result cannot differ; the model evaluates it once.
 * lexer.rs:887 `len - 1` in `create_operator_tree`: evaluated only inside the loop over the characters of the
@@ -55,18 +59,6 @@ def endsWith (s : List Char) (c : Char) : Bool := s.getLast? == some c
 /-- `str::trim_matches(c)`: strips the character from both ends -/
 def trimMatches (s : List Char) (c : Char) : List Char :=
   ((s.dropWhile (· == c)).reverse.dropWhile (· == c)).reverse
-
-/-- `&s[..n]` and `&s[n..]` for a BYTE index `n`; `none` where Rust panics
-(index beyond the end or not on a char boundary) -/
-def splitAtByte : List Char → Nat → Option (List Char × List Char)
-  | cs, 0 => some ([], cs)
-  | [], _ + 1 => none
-  | c :: r, n + 1 =>
-    if c.utf8Size ≤ n + 1 then
-      match splitAtByte r (n + 1 - c.utf8Size) with
-      | some (a, b) => some (c :: a, b)
-      | none => none
-    else none
 
 /-! ## character classes -/
 
@@ -271,8 +263,7 @@ def startToken (cc : CharClass) (self : Lexer) (c : Char) : Lexer :=
       { self with state := .spaces, currentTokenType := some .whitespace }
     else if isAsciiWhitespace c then
       -- any other white space, all some form of new line
-      { self with state := .subexpression, currentTokenType := some .subexpression,
-                  textColumn := 0, textRow := self.textRow + 1 }
+      { self with state := .subexpression, currentTokenType := some .subexpression }
     else if cc.isNumeric c then
       { self with state := .number, currentTokenType := some .number }
     else if isIdentifierChar cc c then
@@ -398,7 +389,8 @@ def armStartCharList (self : Lexer) (c : Char) : Lexer × Bool :=
         ({ self with startQuoteCount := utf8Len self.currentCharacters, state := .charList }, false)
     else (self, false)
   let self :=
-    if !end_ && c != '\x00' then { self with currentCharacters := push self.currentCharacters c } else self
+    if !end_ && !(c == '\x00' && self.atEnd) then { self with currentCharacters := push self.currentCharacters c }
+    else self
   (self, end_)
 
 /-- `LexingState::CharList` arm -/
@@ -418,13 +410,14 @@ def armStartByteList (self : Lexer) (c : Char) : Lexer × Bool :=
   let (self, end_) :=
     if c != '\'' then
       if utf8Len self.currentCharacters == 2 then
-        ({ self with shouldCreate := false }, true)
+        -- reserved 2 quotes for empty byte lists
+        (self, true)
       else
         ({ self with startQuoteCount := utf8Len self.currentCharacters, state := .byteList }, false)
     else (self, false)
-  -- NOTE unlike StartCharList the push does not depend on `end`
   let self :=
-    if c != '\x00' then { self with currentCharacters := push self.currentCharacters c } else self
+    if !end_ && !(c == '\x00' && self.atEnd) then { self with currentCharacters := push self.currentCharacters c }
+    else self
   (self, end_)
 
 /-- `LexingState::ByteList` arm -/
@@ -441,8 +434,6 @@ def armByteList (self : Lexer) (c : Char) : Lexer × Bool :=
 /-- `LexingState::Spaces` arm -/
 def armSpaces (self : Lexer) (c : Char) : Lexer × Bool :=
   if c == '\n' then
-    -- wrap coordinates to new line
-    let self := { self with textColumn := 0, textRow := self.textRow + 1 }
     match self.couldBeSubExpression with
     | true =>
       -- second newline character in whitespace sequence: end token as subexpression
@@ -459,36 +450,21 @@ def armSpaces (self : Lexer) (c : Char) : Lexer × Bool :=
     ({ self with currentCharacters := push self.currentCharacters c }, false)
 
 /-- `LexingState::Subexpression` arm -/
-def armSubexpression (self : Lexer) (c : Char) : Outcome Step :=
+def armSubexpression (self : Lexer) (c : Char) : Lexer × Bool :=
   if isAsciiWhitespace c && !(c == '\t' || c == ' ') then
     -- add character and create token
     let self := { self with currentCharacters := push self.currentCharacters c }
-    -- check len of characters to see if 2 tokens need to be created
-    let split : Outcome (Lexer × Option LexerToken) :=
-      if utf8Len self.currentCharacters > 2 then
-        -- &self.current_characters[..len - 2]  and  [(len - 2)..]
-        match splitAtByte self.currentCharacters (utf8Len self.currentCharacters - 2) with
-        | none => .panic "lexer.rs:669 slice not on char boundary"
-        | some (spacesCharacters, rest) =>
-          .ok ({ self with currentCharacters := rest },
-               some ⟨spacesCharacters, .whitespace, self.tokenStartRow, self.tokenStartColumn⟩)
-      else .ok (self, none)
-    match split with
-    | .ok (self, nextToken) =>
-      -- wrap coordinates to new line
-      let self := { self with textColumn := 0, textRow := self.textRow + 1 }
-      -- skip start new token for this character since it is a part of this token
-      .ok (.cont { self with shouldCreate := false } nextToken true)
-    | .err e => .err e
-    | .panic s => .panic s
-    | .fuelOut => .fuelOut
+    -- could've arrived here by passing through whitespace state: leading spaces stay part of the token
+    let self := { self with currentTokenType := some .subexpression }
+    -- skip start new token for this character since it is a part of this token
+    ({ self with shouldCreate := false }, true)
   else
     -- change to white space token and start new, but could be a subexpression still
     let self := { self with currentTokenType := some .whitespace, couldBeSubExpression := true }
     if c == '\t' || c == ' ' then
-      .ok (.cont { self with currentCharacters := push self.currentCharacters c, state := .spaces } none false)
+      ({ self with currentCharacters := push self.currentCharacters c, state := .spaces }, false)
     else
-      .ok (.cont self none true)
+      (self, true)
 
 /-- `LexingState::Annotation` arm -/
 def armAnnotation (cc : CharClass) (self : Lexer) (c : Char) : Lexer × Bool :=
@@ -503,10 +479,8 @@ def armAnnotation (cc : CharClass) (self : Lexer) (c : Char) : Lexer × Bool :=
 /-- `LexingState::LineAnnotation` arm -/
 def armLineAnnotation (self : Lexer) (c : Char) : Lexer × Bool :=
   if c == '\n' then
-    let self := { self with currentCharacters := push self.currentCharacters c, shouldCreate := false }
-    -- wrap coordinates to new line
-    ({ self with textColumn := 0, textRow := self.textRow + 1 }, true)
-  else if c == '\x00' then
+    ({ self with currentCharacters := push self.currentCharacters c, shouldCreate := false }, true)
+  else if c == '\x00' && self.atEnd then
     (self, true)
   else
     ({ self with currentCharacters := push self.currentCharacters c }, false)
@@ -526,7 +500,7 @@ def stateStep (cc : CharClass) (self : Lexer) (c : Char) : Outcome Step :=
   | .startByteList => Step.ofPair (armStartByteList self c)
   | .byteList => Step.ofPair (armByteList self c)
   | .spaces => Step.ofPair (armSpaces self c)
-  | .subexpression => armSubexpression self c
+  | .subexpression => Step.ofPair (armSubexpression self c)
   | .annotation => Step.ofPair (armAnnotation cc self c)
   | .lineAnnotation => Step.ofPair (armLineAnnotation self c)
 
@@ -547,9 +521,11 @@ def pushNewToken (self : Lexer) (nextToken : Option LexerToken) : Step :=
     else .cont self nextToken true
   else .cont self nextToken true
 
-/-- the tail of `process_char`: `if c != '\n' { self.text_column += 1 }` -/
+/-- the tail of `process_char`: line and column are counted here only
+`if c == '\n' { text_column = 0; text_row += 1 } else { text_column += 1 }` -/
 def bumpColumn (self : Lexer) (c : Char) : Lexer :=
-  if c != '\n' then { self with textColumn := self.textColumn + 1 } else self
+  if c == '\n' then { self with textColumn := 0, textRow := self.textRow + 1 }
+  else { self with textColumn := self.textColumn + 1 }
 
 /-- the part of `process_char` after the `match`: `if start_new { … }`, column increment, `next_token` -/
 def finishChar (cc : CharClass) (self : Lexer) (c : Char) (nextToken : Option LexerToken) (startNew : Bool) :
@@ -583,7 +559,8 @@ def processChar (cc : CharClass) (self : Lexer) (c : Char) : Outcome (Lexer × O
 /-! ## `internal_next` and `lex`
 
 `lex` is `while let Some(token) = lexer.next() { match lexer.result { Ok => push, Err => return Err } }` followed by
-`match lexer.result`; `internal_next` is a `loop` that feeds characters to `process_char` until a token comes out.
+`match lexer.result`; `internal_next` is a `loop` that first checks `self.result.is_err()` (patch 1: before EVERY
+character) and then feeds one character to `process_char`, until a token comes out.
 The two loops are fused into one structural recursion over the remaining input (`lexLoop`); once the input is
 exhausted every further `internal_next` call pushes a `'\0'` through `process_char` (`lexEnd`, explicit fuel:
 the Rust code has no syntactic bound on the number of such calls). -/
@@ -598,6 +575,8 @@ def lexFinish (self : Lexer) (tokens : List LexerToken) : Outcome (List LexerTok
 def lexEnd (cc : CharClass) : Nat → Lexer → List LexerToken → Outcome (List LexerToken × Lexer)
   | 0, _, _ => .fuelOut
   | fuel + 1, self, tokens =>
+    -- top of the `loop`: `if self.result.is_err() { break }`; internal_next returns None, the `while let` ends
+    if self.result.isErr then lexFinish self tokens else
     let self := { self with atEnd := true }
     -- run all checks again to finalize last token by pushing through null character
     match processChar cc self '\x00' with
@@ -605,11 +584,7 @@ def lexEnd (cc : CharClass) : Nat → Lexer → List LexerToken → Outcome (Lis
       -- internal_next returns Some(t); back in `lex`: match lexer.result
       match self.result with
       | .err => .err .syntax
-      | .ok =>
-        let tokens := tokens ++ [t]
-        -- next `lexer.next()`: `if self.result.is_err() { return None }`
-        if self.result.isErr then lexFinish self tokens
-        else lexEnd cc fuel self tokens
+      | .ok => lexEnd cc fuel self (tokens ++ [t])      -- next `lexer.next()`
     | .ok (self, none) =>
       -- if we have a lingering token and don't already have an err
       let self :=
@@ -623,52 +598,46 @@ def lexEnd (cc : CharClass) : Nat → Lexer → List LexerToken → Outcome (Lis
 /-- number of `lexer.next()` calls at end of input the model allows before reporting `fuelOut` -/
 def endFuel : Nat := 4
 
-/-- `lex`'s `while let` fused with `internal_next`'s `loop`, entered inside the `loop`
-(i.e. after the `self.result.is_err()` check of `internal_next`) -/
+/-- `lex`'s `while let` fused with `internal_next`'s `loop`, entered at the top of the `loop` -/
 def lexLoop (cc : CharClass) : List Char → Lexer → List LexerToken → Outcome (List LexerToken × Lexer)
   | [], self, tokens => lexEnd cc endFuel self tokens
   | c :: rest, self, tokens =>
+    -- top of the `loop`: `if self.result.is_err() { break }`; internal_next returns None, the `while let` ends
+    if self.result.isErr then lexFinish self tokens else
     match processChar cc self c with
     | .ok (self, some t) =>
       -- internal_next returns Some(t); back in `lex`: match lexer.result
       match self.result with
       | .err => .err .syntax
-      | .ok =>
-        let tokens := tokens ++ [t]
-        -- next `lexer.next()`: `if self.result.is_err() { return None }`
-        if self.result.isErr then lexFinish self tokens
-        else lexLoop cc rest self tokens
+      | .ok => lexLoop cc rest self (tokens ++ [t])     -- next `lexer.next()`
     | .ok (self, none) => lexLoop cc rest self tokens
     | .err e => .err e
     | .panic s => .panic s
     | .fuelOut => .fuelOut
 
 /-- `Lexer::internal_next` on its own (not used by `lex`, kept for line-by-line comparison):
-returns the token, the remaining input and the lexer; `fuel` as in `lexEnd` is not needed because a single call
-pushes at most one `'\0'`. -/
+returns the token, the remaining input and the lexer. -/
 def internalNext (cc : CharClass) : List Char → Lexer → Outcome (Option LexerToken × List Char × Lexer)
-  | input, self =>
-    if self.result.isErr then .ok (none, input, self) else go input self
-where
-  go : List Char → Lexer → Outcome (Option LexerToken × List Char × Lexer)
-    | [], self =>
-      let self := { self with atEnd := true }
-      match processChar cc self '\x00' with
-      | .ok (self, some t) => .ok (some t, [], self)
-      | .ok (self, none) =>
-        let self :=
-          if utf8Len self.currentCharacters > 0 && self.result.isOk then { self with result := .err } else self
-        .ok (none, [], self)
-      | .err e => .err e
-      | .panic s => .panic s
-      | .fuelOut => .fuelOut
-    | c :: rest, self =>
-      match processChar cc self c with
-      | .ok (self, some t) => .ok (some t, rest, self)
-      | .ok (self, none) => go rest self
-      | .err e => .err e
-      | .panic s => .panic s
-      | .fuelOut => .fuelOut
+  | [], self =>
+    if self.result.isErr then .ok (none, [], self) else
+    let self := { self with atEnd := true }
+    match processChar cc self '\x00' with
+    | .ok (self, some t) => .ok (some t, [], self)
+    | .ok (self, none) =>
+      let self :=
+        if utf8Len self.currentCharacters > 0 && self.result.isOk then { self with result := .err } else self
+      .ok (none, [], self)
+    | .err e => .err e
+    | .panic s => .panic s
+    | .fuelOut => .fuelOut
+  | c :: rest, self =>
+    if self.result.isErr then .ok (none, c :: rest, self) else
+    match processChar cc self c with
+    | .ok (self, some t) => .ok (some t, rest, self)
+    | .ok (self, none) => internalNext cc rest self
+    | .err e => .err e
+    | .panic s => .panic s
+    | .fuelOut => .fuelOut
 
 /-- `pub fn lex`, also returning the final lexer state (for `characters_lexed`) -/
 def lexFull (cc : CharClass) (input : List Char) : Outcome (List LexerToken × Lexer) :=
